@@ -90,12 +90,24 @@ def farcall (j : Json) : Except String Json := do
     index := ← jNat? (← field cj "index"), nboxz := ← jNat? (← field cj "nboxz"), nRep := ← jInt? (← field cj "n_repeat"),
     baseFolder := ← jStr? (← field cj "base_folder"), inits := inits, hBox := ← jRat? (← field cj "h_box"),
     zOff := ← jRat? (← field cj "z_off"), deltaz := ← jRat? (← field cj "deltaz"),
-    speedClosed := ← jRat? (← field cj "speed_closed"), u := u }
+    speedClosed := ← jRat? (← field cj "speed_closed"), u := u,
+    upper := (fieldD cj "upper" (Json.bool false)) == Json.bool true,
+    beds := ← jList? (fun e => do match ← jList? jRat? e with | [x, y] => pure (x, y) | _ => .error "bed = [x, y]") (fieldD cj "beds" (Json.arr #[])) }
   let cs0 : Femto.Gc.CS := {}
   let r := Femto.TP.farcallBody cfg col cs0
   let f := Femto.TP.farcallFile cfg col
   pure <| obj [("err", Json.bool r.err.isSome),
                ("instrs", listJ instrJ ((flattenStmts f.1).filter (fun i => !isNoise i))),
                ("reported_dwell", ratJ f.2.dwellTotal)]
+
+/-- op `c06.leaf`: `{cfg, pts: [[x, y]...], speed, decel: [bool...]}` → the instructions of the model's leaf file -/
+def leaf (j : Json) : Except String Json := do
+  let cfg ← cfgOf (← field j "cfg")
+  let pts ← jList? (fun e => do match ← jList? jRat? e with | [x, y] => pure (x, y) | _ => .error "pt = [x, y]") (← field j "pts")
+  let speed ← jRat? (← field j "speed")
+  let decel ← jList? jBool? (← field j "decel")
+  match Femto.TP.leafFile cfg pts speed decel with
+  | .ok is => pure <| obj [("err", Json.bool false), ("instrs", listJ instrJ is)]
+  | .error _ => pure <| obj [("err", Json.bool true), ("instrs", Json.arr #[])]
 
 end Femto.Driver.C06
